@@ -580,21 +580,38 @@ fn gen_storm(rng: &mut Rng, tier: Tier) -> ConcCase {
     // overlap only if they are issued together many times
     let cheap = rng.chance(0.33);
     let mut maps = Vec::new();
-    for _ in 0..n_maps {
+    for k in 0..n_maps {
         let mut sh = gen_shape(rng, 0, max_n);
         sh.n = sh.n.clamp(3, max_n);
         sh.mix = 1 + rng.below(2) as u8; // sliders: converters have work to do
+        // the maps of one storm differ as much as possible (sparse vs dense, easy vs hard settings),
+        // so that a value leaking from one job into another changes what the other computes
+        sh.tempo = [2u8, 1, 0][k % 3];
         if cheap {
             sh.tie_timing = true; // several tempos: bpm() has something to decide
         }
-        maps.push(gen_map(rng, &sh));
+        let mut m = gen_map(rng, &sh);
+        let v = [1.0, 9.5, 5.0][k % 3];
+        for l in m.pre.iter_mut() {
+            for key in ["HPDrainRate", "OverallDifficulty", "ApproachRate"] {
+                if l.starts_with(key) {
+                    *l = format!("{key}:{v}");
+                }
+            }
+        }
+        maps.push(m);
     }
-    let target = 1 + rng.usize(3);
+    // mania has by far the most involved converter
+    let target = 1 + rng.weighted(&[25, 25, 50]);
+    // conversions alone are cheap enough to be repeated often: more overlapping windows per second
+    let convert_only = rng.chance(0.7);
     let diff = if rng.chance(0.5) { DiffSpec::default() } else { gen_diff(rng, target) };
     let jobs: Vec<Job> = (0..n_maps)
         .map(|m| Job {
             kind: if cheap {
                 (*rng.pick(&["bpm", "bpm", "attrs"])).to_owned()
+            } else if convert_only {
+                "convert".to_owned()
             } else {
                 (*rng.pick(&["convert", "convert", "calc", "strains"])).to_owned()
             },
@@ -607,7 +624,13 @@ fn gen_storm(rng: &mut Rng, tier: Tier) -> ConcCase {
         .collect();
     let threads = n_maps;
     let rounds = match (cfg!(miri), cheap) {
-        (true, false) => 2,
+        (true, false) => {
+            if convert_only {
+                10
+            } else {
+                4
+            }
+        }
         (true, true) => 8,
         (false, _) => 3 + rng.usize(3),
     };
